@@ -37,6 +37,9 @@ func c06values() []func() interface{} {
 		func() interface{} { return json.Number("1.50") },
 		func() interface{} { return []interface{}{1, "y"} },
 		func() interface{} { return true },
+		// values that a column with a declared raw type rejects (300 into int8, text into a number)
+		func() interface{} { return 300 },
+		func() interface{} { return "soon" },
 	}
 }
 
@@ -51,6 +54,10 @@ func c06cells() []func() jsonline.Value {
 			r.Set("b", "z")
 			return r
 		},
+		// cells with a declared raw type: Set and Import on them can fail
+		func() jsonline.Value { return jsonline.NewValue(nil, jsonline.Numeric, int8(0)) },
+		func() jsonline.Value { return jsonline.NewValue(5, jsonline.String, int(0)) },
+		func() jsonline.Value { return jsonline.NewValue(nil, jsonline.Numeric, nil) },
 	}
 }
 
@@ -64,6 +71,12 @@ var c06jsons = []string{
 	`{"é":true} x`, // trailing content: members applied, then rejected
 	`[1]`,          // not an object: nothing applied
 	` { "" : 0 , "a.b" : [ ] } `,
+	// names that differ from the alphabet's only by case (ASCII, accented, and the Kelvin sign that folds to k)
+	`{"A":5,"a":6,"AB":7}`,
+	`{"\u00c9":1,"B":2,"\u212a":3,"k":4}`,
+	// a value that a typed cell rejects, after a new key and before another one
+	`{"n1":1,"a":300,"n2":2}`,
+	`{"a":"soon","ab":"soon","b":"soon"}`,
 }
 
 // c06alphabetOps is the op alphabet for exhaustive enumeration.
@@ -82,6 +95,9 @@ func c06alphabetOps() []c06op {
 	}
 	ops = append(ops, c06op{kind: "setv", key: "b", cell: cells[1]})
 	ops = append(ops, c06op{kind: "setv", key: "a", cell: cells[3]})
+	ops = append(ops, c06op{kind: "setv", key: "a", cell: cells[4]})
+	ops = append(ops, c06op{kind: "set", key: "a", val: vals[6]})
+	ops = append(ops, c06op{kind: "iak", key: "a", val: vals[7]})
 	for _, i := range []int{-1, 0, 1, 2, 9} {
 		ops = append(ops, c06op{kind: "setat", idx: i, val: vals[2]})
 		ops = append(ops, c06op{kind: "iai", idx: i, val: vals[3]})
@@ -203,11 +219,13 @@ func applyC06(row jsonline.Row, op c06op) (string, string) {
 		rendered := map[string]string{}
 		existing := []string{}
 		// Go iterates maps in random order and Import stops at the first failing entry: when an
-		// entry can fail (its target cell is a row), the map is reduced to that entry so that
+		// entry can fail (its target cell is a row, or has a format or raw type that converts), the map is reduced to that entry so that
 		// the history stays deterministic.
 		for i, k := range op.m {
 			if c, ok := row.GetValue(k); ok {
-				if _, isRow := c.(jsonline.Row); isRow {
+				_, isRow := c.(jsonline.Row)
+				canFail := isRow || c.GetRawType() != nil || (c.GetFormat() != jsonline.Auto && c.GetFormat() != jsonline.Hidden)
+				if canFail {
 					op = c06op{kind: "imap", m: []string{k}, vals: []func() interface{}{op.vals[i]}}
 					break
 				}
